@@ -81,6 +81,29 @@ Definition plain (h : string) : bool :=
 Lemma prefix_nil s : String.prefix "" s = true.
 Proof. destruct s; reflexivity. Qed.
 
+Lemma sapp_assoc_early (s t u : string) : (s ++ t) ++ u = s ++ t ++ u.
+Proof. induction s; simpl; congruence. Qed.
+Lemma last_is_contains c s : contains c s = false -> last_is c s = false.
+Proof.
+  induction s as [|a r IH]; simpl; [reflexivity|]. intro H. apply orb_false_iff in H as [Ha Hr].
+  destruct r; [exact Ha|apply IH; exact Hr].
+Qed.
+Lemma last_is_app c x a r : last_is c (x ++ String a r) = last_is c (String a r).
+Proof.
+  induction x as [|b x IH]; [reflexivity|]. cbn [append]. rewrite <- IH.
+  destruct x; reflexivity.
+Qed.
+Lemma drop_last_app x a : drop_last (x ++ String a EmptyString) = x.
+Proof. induction x as [|b x IH]; [reflexivity|]. cbn [append]. destruct x; cbn in *; [reflexivity|]. f_equal. exact IH. Qed.
+Lemma plain_no_bracket_prefix h t : plain h = true -> String.prefix "[" (h ++ String ":" t) = false.
+Proof.
+  intro Hp. destruct h as [|a r]; [reflexivity|].
+  apply andb_true_iff in Hp as [H1 _]. apply negb_true_iff in H1. cbn [contains] in H1. apply orb_false_iff in H1 as [Ha _].
+  cbn [append String.prefix].
+  destruct (Ascii.ascii_dec "["%char a) as [E|_]; [|reflexivity].
+  subst a. rewrite Ascii.eqb_refl in Ha. discriminate.
+Qed.
+
 Lemma bind_unix p : parse_bind ("unix:" ++ p) = BUnix p.
 Proof. unfold parse_bind. simpl. rewrite prefix_nil. reflexivity. Qed.
 
@@ -94,6 +117,7 @@ Lemma bind_host_port h p :
   parse_bind s = BInet false h p.
 Proof.
   intros s Hu Hf Hp Hc Hz. unfold parse_bind. rewrite Hu, Hf.
+  assert (B : String.prefix "[" s = false) by (apply plain_no_bracket_prefix; exact Hp). rewrite B. cbn [andb].
   apply andb_true_iff in Hp as [H1 H2]. apply negb_true_iff in H1, H2.
   pose proof (digits_dec p Hz) as Hd.
   assert (E : str_remove "]" (str_remove "[" s) = s).
@@ -112,6 +136,7 @@ Lemma bind_host h :
 Proof.
   intros Hu Hf Hp Hc. unfold parse_bind. rewrite Hu, Hf.
   apply andb_true_iff in Hp as [H1 H2]. apply negb_true_iff in H1, H2.
+  rewrite (last_is_contains "]" h H2), andb_false_r.
   rewrite (str_remove_id "[" h H1), (str_remove_id "]" h H2), (rsplit1_none _ _ Hc).
   simpl. rewrite Hc. reflexivity.
 Qed.
@@ -126,6 +151,11 @@ Proof.
   change (String.prefix "unix:" ("[" ++ h ++ "]:" ++ dec p)) with false.
   change (String.prefix "fd://" ("[" ++ h ++ "]:" ++ dec p)) with false.
   cbv iota.
+  assert (L : last_is "]" ("[" ++ h ++ "]:" ++ dec p) = false).
+  { assert (A : ("[" ++ h ++ "]:" ++ dec p) = (("[" ++ h) ++ "]") ++ String ":" (dec p)).
+    { symmetry. rewrite !sapp_assoc_early. reflexivity. }
+    rewrite A, last_is_app. apply last_is_contains. simpl. apply digits_no_char; auto. }
+  rewrite L, andb_false_r.
   assert (E : str_remove "]" (str_remove "[" ("[" ++ h ++ "]:" ++ dec p)) = h ++ ":" ++ dec p).
   { simpl. rewrite !str_remove_app. simpl.
     rewrite (str_remove_id "[" h H1), (str_remove_id "[" (dec p)) by (apply digits_no_char; auto).
@@ -133,6 +163,23 @@ Proof.
     reflexivity. }
   rewrite E. simpl. rewrite rsplit1_last by (apply digits_no_char; auto).
   rewrite int_of_string_dec. simpl. rewrite Hc. reflexivity.
+Qed.
+
+(* a bare host in brackets - an IPv6 address without a port - keeps all its colons and gets the default port (F63) *)
+Lemma bind_v6_bare h : plain h = true -> parse_bind ("[" ++ h ++ "]") = BInet (contains ":" h) h 8000.
+Proof.
+  intro Hp. unfold parse_bind.
+  change (String.prefix "unix:" ("[" ++ h ++ "]")) with false.
+  change (String.prefix "fd://" ("[" ++ h ++ "]")) with false. cbv iota.
+  assert (P : String.prefix "[" ("[" ++ h ++ "]") = true) by (simpl; apply prefix_nil).
+  assert (L : last_is "]" ("[" ++ h ++ "]") = true).
+  { change ("[" ++ h ++ "]") with (("[" ++ h) ++ String "]" EmptyString). rewrite last_is_app. reflexivity. }
+  rewrite P, L. cbn [andb].
+  apply andb_true_iff in Hp as [H1 H2]. apply negb_true_iff in H1, H2.
+  assert (E : str_remove "]" (str_remove "[" ("[" ++ h ++ "]")) = h).
+  { simpl. rewrite !str_remove_app. simpl. rewrite (str_remove_id "[" h H1), (str_remove_id "]" h H2).
+    clear. induction h; simpl; congruence. }
+  rewrite E. reflexivity.
 Qed.
 
 (* ---------------- root_path ---------------- *)
